@@ -33,6 +33,9 @@ def run(tier):
                 "|x|>5) the canonical form computed for a negative argument, mirrored, equals +-the form for the positive argument (all "
                 "guards are decided by the real part; coefficient tables are opaque functions of x^2); (2) interface purity: bessel.rs touches "
                 "its operand only through DualNum / operator items, hence derivative parts are those of the computed real function (C03); "
+                "(2') decided on the bodies in dual mode: for every type, presence pattern and region sample (0 with both signs of zero, "
+                "+-1e-6, +-1) every part is the formal derivative of the real function the scalar interpretation of the same path computes; "
+                "the Signed / DualNum items bessel.rs calls satisfy their own lifting rules; "
                 "(3) small-argument series: the polynomial of each small-argument arm coincides with the Maclaurin polynomial of J_n up to its "
                 "own degree and the truncation is adequate for derivative orders 0..4 at the arm's threshold (exact rational bound vs 2^-50). "
                 "NOT decided: accuracy of the rational approximations on |x|<=5 and of the asymptotic form beyond, continuity across |x|=5, "
